@@ -162,11 +162,27 @@ pub fn outputs_for(commit_global_tick: u64) -> Vec<(ChannelId, Vec<u8>)> {
     v
 }
 
-/// Re-record `rt.provenance` with [`outputs_for`] outputs on every entry (idempotent).
+/// The *sparse* recording: outputs only on commits with an odd global tick, none on the others —
+/// so histories contain an entry WITH outputs followed by one WITHOUT (and vice versa), the shape
+/// in which "keep the previous tick's materialisation" differs from "the last entry's outputs".
+pub fn outputs_for_mode(commit_global_tick: u64, sparse: bool) -> Vec<(ChannelId, Vec<u8>)> {
+    if sparse && commit_global_tick % 2 == 0 {
+        Vec::new()
+    } else {
+        outputs_for(commit_global_tick)
+    }
+}
+
+/// [`decorate_mode`] with outputs on every entry.
+pub fn decorate(rt: &Rt) -> Result<warp_core::ProvenanceService, String> {
+    decorate_mode(rt, false)
+}
+
+/// Re-record `rt.provenance` with [`outputs_for_mode`] outputs on every entry (idempotent).
 /// Worldline creation order is reproduced: base worldlines are registered from the frontier's
 /// replay base, strand children are created with `ProvenanceService::fork` at their recorded
 /// fork coordinate, then each worldline's remaining entries are appended.
-pub fn decorate(rt: &Rt) -> Result<warp_core::ProvenanceService, String> {
+pub fn decorate_mode(rt: &Rt, sparse: bool) -> Result<warp_core::ProvenanceService, String> {
     use warp_core::ProvenanceService;
     let mut out = ProvenanceService::new();
     let ids: Vec<WorldlineId> = rt.runtime.worldlines().iter().map(|(id, _)| *id).collect();
@@ -205,7 +221,7 @@ pub fn decorate(rt: &Rt) -> Result<warp_core::ProvenanceService, String> {
                     .provenance
                     .entry(*id, WorldlineTick::from_raw(t))
                     .map_err(|e| format!("{e:?}"))?;
-                e.outputs = outputs_for(e.commit_global_tick.as_u64());
+                e.outputs = outputs_for_mode(e.commit_global_tick.as_u64(), sparse);
                 out.append_local_commit(e).map_err(|e| format!("{e:?}"))?;
             }
             done.push(*id);
